@@ -8,6 +8,7 @@
  *   rc <history>                    reference-counting history (see gen/C19.py); ends with a recoverable leak check
  */
 #include "polyio.h"
+#include <variable_list.h>
 #include "valio.h"
 #include <interval.h>
 #include <sanitizer/lsan_interface.h>
@@ -20,6 +21,18 @@ static void w_shl(lp_polynomial_t* r, const lp_polynomial_t* a) { lp_polynomial_
 static void w_pow(lp_polynomial_t* r, const lp_polynomial_t* a) { lp_polynomial_pow(r, a, g_n); }
 static void w_mulint(lp_polynomial_t* r, const lp_polynomial_t* a) { lp_polynomial_mul_integer(r, a, &g_c); }
 static void w_coeff(lp_polynomial_t* r, const lp_polynomial_t* a) { lp_polynomial_get_coefficient(r, a, g_n); }
+
+
+/* A valid prior state of an output includes a cached hash: pre-used outputs are hashed before the call; afterwards the
+ * output's hash and eq must agree with an equal polynomial rebuilt monomial by monomial (no cached hash). */
+static void rebuild_cb(const lp_polynomial_context_t* ctx, lp_monomial_t* m, void* data) { (void) ctx; lp_polynomial_add_monomial((lp_polynomial_t*) data, m); }
+static lp_polynomial_t* pio_new_h(const char* s) { lp_polynomial_t* p = pio_new(s); (void) lp_polynomial_hash(p); return p; }
+static void hchk(const lp_polynomial_t* r) {
+  lp_polynomial_t* f = lp_polynomial_new(pio_ctx);
+  lp_polynomial_traverse(r, rebuild_cb, f);
+  if (lp_polynomial_hash(r) != lp_polynomial_hash(f) || !lp_polynomial_eq(r, f) || !lp_polynomial_eq(f, r)) printf(" HASH-OR-EQ-STALE");
+  lp_polynomial_delete(f);
+}
 
 static int pdst(void) {
   const char* op = vtok[1];
@@ -45,21 +58,21 @@ static int pdst(void) {
     /* fused multiply-add: the output is also an input; variants: accumulator = prior (twice, must agree),
        accumulator aliases A (S = A + A*B), accumulator aliases B */
     lp_polynomial_t* r1 = pio_new(vtok[4]); fb(r1, A, B); pio_print(r1); putchar(' ');
-    lp_polynomial_t* r2 = pio_new(vtok[4]); fb(r2, A, B); pio_print(r2); putchar(' ');
-    lp_polynomial_t* r3 = pio_new(vtok[2]); fb(r3, r3, B); pio_print(r3); putchar(' ');
-    lp_polynomial_t* r4 = pio_new(vtok[3]); fb(r4, A, r4); pio_print(r4);
+    lp_polynomial_t* r2 = pio_new_h(vtok[4]); fb(r2, A, B); pio_print(r2); hchk(r2); putchar(' ');
+    lp_polynomial_t* r3 = pio_new_h(vtok[2]); fb(r3, r3, B); pio_print(r3); hchk(r3); putchar(' ');
+    lp_polynomial_t* r4 = pio_new_h(vtok[3]); fb(r4, A, r4); pio_print(r4); hchk(r4);
     lp_polynomial_delete(r1); lp_polynomial_delete(r2); lp_polynomial_delete(r3); lp_polynomial_delete(r4);
   } else if (fb) {
     lp_polynomial_t* r1 = lp_polynomial_new(pio_ctx); fb(r1, A, B); pio_print(r1); putchar(' ');
-    lp_polynomial_t* r2 = pio_new(vtok[4]); fb(r2, A, B); pio_print(r2); putchar(' ');
-    lp_polynomial_t* r3 = pio_new(vtok[2]); fb(r3, r3, B); pio_print(r3); putchar(' ');
-    lp_polynomial_t* r4 = pio_new(vtok[3]); fb(r4, A, r4); pio_print(r4); putchar(' ');
-    lp_polynomial_t* r5 = pio_new(vtok[2]); fb(r5, r5, r5); printf("self:"); pio_print(r5);
+    lp_polynomial_t* r2 = pio_new_h(vtok[4]); fb(r2, A, B); pio_print(r2); hchk(r2); putchar(' ');
+    lp_polynomial_t* r3 = pio_new_h(vtok[2]); fb(r3, r3, B); pio_print(r3); hchk(r3); putchar(' ');
+    lp_polynomial_t* r4 = pio_new_h(vtok[3]); fb(r4, A, r4); pio_print(r4); hchk(r4); putchar(' ');
+    lp_polynomial_t* r5 = pio_new_h(vtok[2]); fb(r5, r5, r5); printf("self:"); pio_print(r5); hchk(r5);
     lp_polynomial_delete(r1); lp_polynomial_delete(r2); lp_polynomial_delete(r3); lp_polynomial_delete(r4); lp_polynomial_delete(r5);
   } else {
     lp_polynomial_t* r1 = lp_polynomial_new(pio_ctx); fu(r1, A); pio_print(r1); putchar(' ');
-    lp_polynomial_t* r2 = pio_new(vtok[4]); fu(r2, A); pio_print(r2); putchar(' ');
-    lp_polynomial_t* r3 = pio_new(vtok[2]); fu(r3, r3); pio_print(r3);
+    lp_polynomial_t* r2 = pio_new_h(vtok[4]); fu(r2, A); pio_print(r2); hchk(r2); putchar(' ');
+    lp_polynomial_t* r3 = pio_new_h(vtok[2]); fu(r3, r3); pio_print(r3); hchk(r3);
     lp_polynomial_delete(r1); lp_polynomial_delete(r2); lp_polynomial_delete(r3);
   }
   /* the inputs must be unchanged */
@@ -80,14 +93,14 @@ static int pdst2(void) {
   lp_polynomial_t* A = pio_new(vtok[2]); lp_polynomial_t* B = pio_new(vtok[3]);
   { lp_polynomial_t* d = lp_polynomial_new(pio_ctx); lp_polynomial_t* r = lp_polynomial_new(pio_ctx);
     f(d, r, A, B); pio_print(d); putchar(','); pio_print(r); putchar(' '); lp_polynomial_delete(d); lp_polynomial_delete(r); }
-  { lp_polynomial_t* d = pio_new(vtok[4]); lp_polynomial_t* r = pio_new(vtok[5]);
-    f(d, r, A, B); pio_print(d); putchar(','); pio_print(r); putchar(' '); lp_polynomial_delete(d); lp_polynomial_delete(r); }
-  { lp_polynomial_t* d = pio_new(vtok[5]); lp_polynomial_t* r = pio_new(vtok[4]);
-    f(d, r, A, B); pio_print(d); putchar(','); pio_print(r); putchar(' '); lp_polynomial_delete(d); lp_polynomial_delete(r); }
-  { lp_polynomial_t* d = pio_new(vtok[2]); lp_polynomial_t* r = pio_new(vtok[3]);   /* D is A, R is B */
-    f(d, r, d, r); pio_print(d); putchar(','); pio_print(r); putchar(' '); lp_polynomial_delete(d); lp_polynomial_delete(r); }
-  { lp_polynomial_t* d = pio_new(vtok[3]); lp_polynomial_t* r = pio_new(vtok[2]);   /* D is B, R is A */
-    f(d, r, r, d); pio_print(d); putchar(','); pio_print(r); lp_polynomial_delete(d); lp_polynomial_delete(r); }
+  { lp_polynomial_t* d = pio_new_h(vtok[4]); lp_polynomial_t* r = pio_new_h(vtok[5]);
+    f(d, r, A, B); pio_print(d); putchar(','); pio_print(r); hchk(d); hchk(r); putchar(' '); lp_polynomial_delete(d); lp_polynomial_delete(r); }
+  { lp_polynomial_t* d = pio_new_h(vtok[5]); lp_polynomial_t* r = pio_new_h(vtok[4]);
+    f(d, r, A, B); pio_print(d); putchar(','); pio_print(r); hchk(d); hchk(r); putchar(' '); lp_polynomial_delete(d); lp_polynomial_delete(r); }
+  { lp_polynomial_t* d = pio_new_h(vtok[2]); lp_polynomial_t* r = pio_new_h(vtok[3]);   /* D is A, R is B */
+    f(d, r, d, r); pio_print(d); putchar(','); pio_print(r); hchk(d); hchk(r); putchar(' '); lp_polynomial_delete(d); lp_polynomial_delete(r); }
+  { lp_polynomial_t* d = pio_new_h(vtok[3]); lp_polynomial_t* r = pio_new_h(vtok[2]);   /* D is B, R is A */
+    f(d, r, r, d); pio_print(d); putchar(','); pio_print(r); hchk(d); hchk(r); lp_polynomial_delete(d); lp_polynomial_delete(r); }
   printf(" in:"); pio_print(A); putchar(' '); pio_print(B);
   lp_polynomial_delete(A); lp_polynomial_delete(B);
   return 1;
@@ -215,6 +228,31 @@ static int rc(void) {
   return 1;
 }
 
+
+/* vlist <nvars> <id> <id> ...: variable lists and orders over a LARGE database: ids far above the number of pushed
+ * variables (index maps must grow to cover the id).  Prints index/contains of every id (and of two ids not pushed), the
+ * order comparison of the first two, then pops everything. */
+static int vlist(void) {
+  int nv = atoi(vtok[1]); int n = vntok - 2;
+  lp_variable_db_t* db = lp_variable_db_new();
+  lp_variable_t* x = malloc(sizeof(lp_variable_t) * (size_t) (nv + 1));
+  char nm[32];
+  for (int i = 0; i < nv; ++i) { snprintf(nm, sizeof nm, "v%d", i); x[i] = lp_variable_db_new_variable(db, nm); }
+  lp_variable_list_t L; lp_variable_list_construct(&L);
+  lp_variable_order_t* ord = lp_variable_order_new();
+  for (int i = 0; i < n; ++i) { int id = atoi(vtok[2 + i]); if (id < 0 || id >= nv) continue;
+    if (lp_variable_list_index(&L, x[id]) < 0) lp_variable_list_push(&L, x[id]);
+    if (!lp_variable_order_contains(ord, x[id])) lp_variable_order_push(ord, x[id]); }
+  for (int i = 0; i < n; ++i) { int id = atoi(vtok[2 + i]); if (id < 0 || id >= nv) continue;
+    printf("%d:%d:%d ", id, lp_variable_list_index(&L, x[id]), lp_variable_order_contains(ord, x[id]) ? 1 : 0); }
+  printf("| %d:%d %d:%d", 0, lp_variable_order_contains(ord, x[0]) ? 1 : 0, nv - 1, lp_variable_order_contains(ord, x[nv - 1]) ? 1 : 0);
+  if (n >= 2) { int a = atoi(vtok[2]), b = atoi(vtok[3]);
+    if (a >= 0 && a < nv && b >= 0 && b < nv) { int c = lp_variable_order_cmp(ord, x[a], x[b]); printf(" cmp:%d", c < 0 ? -1 : (c > 0 ? 1 : 0)); } }
+  printf(" size:%zu", lp_variable_list_size(&L));
+  lp_variable_list_destruct(&L); lp_variable_order_detach(ord); lp_variable_db_detach(db); free(x);
+  return 1;
+}
+
 int main(void) {
   mpz_init(&g_c);
   pio_init(lp_Z);
@@ -226,6 +264,7 @@ int main(void) {
     else if (is_op("vdst")) ok = vdst();
     else if (is_op("idst")) ok = idst();
     else if (is_op("rc")) ok = rc();
+    else if (is_op("vlist")) ok = vlist();
     if (!ok) printf("UNKNOWN-OP");
     end_case();
   }
